@@ -6,7 +6,7 @@ use crate::{
     sock::{CapMode, SockPlan},
 };
 
-pub const BODY_SIZES: &[usize] = &[0, 1, 2, 15, 16, 17, 100, 255, 256, 1000, 4096, 8191, 8192, 8193, 20000];
+pub const BODY_SIZES: &[usize] = &[0, 1, 2, 15, 16, 17, 100, 255, 256, 1000, 4096, 8191, 8192, 8193, 20000, 32767, 32768, 40000, 70000];
 pub const CHUNK_SIZES: &[usize] = &[1, 2, 9, 10, 15, 16, 17, 255, 256, 4096, 65536];
 
 #[derive(Clone, Debug)]
@@ -244,6 +244,8 @@ pub fn gen_sock_benign(rng: &mut Rng) -> SockPlan {
         p.flush_pending_pm = *rng.pick(&[100u32, 500]);
         p.max_flush_pending = rng.range(1, 6) as u32;
     }
+    // a buffering transport (TLS-like): nothing reaches the wire before poll_flush completes
+    p.buffered = rng.chance(1, 5);
     p
 }
 
@@ -259,7 +261,7 @@ pub fn gen_sched(rng: &mut Rng) -> Sched {
 }
 
 pub fn gen_grants(rng: &mut Rng, p: &mut SockPlan, max_delay: u32) -> Vec<(usize, u32)> {
-    if !rng.chance(1, 3) {
+    if p.buffered || !rng.chance(1, 3) {
         return vec![];
     }
     p.gated_writes = true;
@@ -465,7 +467,7 @@ pub fn gen_answer(rng: &mut Rng, gates: &mut Vec<GateEv>, gate_delay_max: u64, o
             }
         }
     };
-    if o.allow_short_long && rng.chance(1, 10) {
+    if o.allow_short_long && rng.chance(1, 10) && (!bodiless || o.allow_bodiless_status_with_body) {
         // sized body that lies about its size
         let delta = *rng.pick(&[1usize, 5, 1000]);
         let len = if rng.chance(1, 2) { total + delta } else { total.saturating_sub(delta) };
@@ -592,7 +594,11 @@ pub fn gen_pipeline(rng: &mut Rng, prop: &'static str) -> H1Scenario {
         // depend on timing, so no request or handler ends the connection early there
         allow_conn_opts: !c04,
         allow_expect: rng.chance(1, 3),
-        max_body: if rng.chance(1, 8) { 20000 } else { 1000 },
+        max_body: match rng.below(16) {
+            0 | 1 => 20000,
+            2 => 70000,
+            _ => 1000,
+        },
         body_p: if c03 { 90 } else { 50 },
     };
     let reqs: Vec<Req> = (0..nreq).map(|i| gen_req(rng, i as u32 + 1, &ropts)).collect();
@@ -601,7 +607,8 @@ pub fn gen_pipeline(rng: &mut Rng, prop: &'static str) -> H1Scenario {
         allow_fail: !c04 || rng.chance(1, 4),
         allow_short_long: !c04,
         allow_empty_chunks: true,
-        allow_bodiless_status_with_body: !c04,
+        // (a body attached to 204/304 is C02's subject; its octets would only blur C03's oracle)
+        allow_bodiless_status_with_body: !c04 && !c03,
         allow_user_framing: !c04,
         allow_force_close: !c04,
         allow_from_task: c04,
